@@ -92,6 +92,20 @@ def kw_instant(cm, kw):
 
 
 def make_point(kw):
+    """TimePoint(**kw).  The UTC offset is also given the way a caller may
+    spell it with one keyword only: hours alone when the minutes are zero,
+    minutes alone when the hours are zero (chosen from the values, so a case
+    always builds the same call)."""
+    kw = dict(kw)
+    tzh, tzm = kw.get("time_zone_hour"), kw.get("time_zone_minute")
+    pick = (kw.get("year", 0) + (kw.get("second_of_minute") or 0) +
+            (kw.get("minute_of_hour") or 0)) % 3 == 0
+    if pick and not kw.get("truncated") and isinstance(tzh, int) and \
+            isinstance(tzm, int):
+        if tzm == 0 and tzh != 0:
+            del kw["time_zone_minute"]
+        elif tzh == 0 and tzm != 0:
+            del kw["time_zone_hour"]
     return lib().TimePoint(**kw)
 
 
@@ -154,6 +168,13 @@ class Native:
             self.problems.append("second %r outside [0,60)" % (s,))
         if m is None and s is not None:
             self.problems.append("second present but minute absent")
+        # a fraction lives on the smallest field present only
+        if m is not None and h is not None and abs(h - round(h)) > 1e-9:
+            self.problems.append("hour %r carries a fraction although a "
+                                 "minute field is present" % (h,))
+        if s is not None and m is not None and abs(m - round(m)) > 1e-9:
+            self.problems.append("minute %r carries a fraction although a "
+                                 "second field is present" % (m,))
         self.sod = R.sod_from_fields(h, m, s)
         tz = f["time_zone"]
         self.tzh, self.tzm = tz.hours, tz.minutes
